@@ -245,6 +245,19 @@ func init() {
 			},
 		}, false
 	}))
+	// two refused requests answered in two languages: the message catalog is one object shared by every request
+	registerScenario(c19APIScenario("i18n-errors", Profile{I18N: true}, func(w *World) ([]func() *Obs, bool) {
+		return []func() *Obs{
+			func() *Obs {
+				a := w.AuthFor("A")
+				a.Lang = "es-MX,es;q=0.9"
+				return w.Token(url.Values{"grant_type": {"client_credentials"}, "scope": {"not-registered"}}, a)
+			},
+			func() *Obs {
+				return w.Authorize(url.Values{"client_id": {"A"}, "redirect_uri": {"https://A.example/cb"}, "state": {"state-12345678"}, "response_type": {"code"}, "scope": {"a"}}, AuthzOpts{Deny: true, Lang: "de-DE,de;q=0.8"})
+			},
+		}, false
+	}))
 	registerScenario(c19APIScenario("issue-introspect", def, func(w *World) ([]func() *Obs, bool) {
 		at := w.Token(url.Values{"grant_type": {"client_credentials"}, "scope": {"a"}}, w.AuthFor("B")).Str("access_token")
 		return []func() *Obs{
@@ -441,8 +454,8 @@ func init() {
 		}
 		// vacuity: a scenario in which no operation ever succeeds explores error paths only (a broken set-up)
 		for _, n := range names {
-			if n == "mint-mint-mint" || n == "default-config-getters" {
-				continue
+			if n == "mint-mint-mint" || n == "default-config-getters" || n == "i18n-errors" {
+				continue // no token request in these (i18n-errors: two refusals by construction)
 			}
 			alive := false
 			for cls := range r.Agg.Classes {
